@@ -225,3 +225,102 @@ def delegation_report(ws, impl, skip=()):
               if es.enum and es.enum == impl.get("self_adt")]
         out.append((it["name"], fn, body, names, sw))
     return out
+
+
+def calls_named(body, names, live=None):
+    live = live if live is not None else cfg.live_blocks(body)
+    out = {}
+    for i, t in real_calls(body, live):
+        n = cname(t)
+        if n in names:
+            out.setdefault(n, []).append(i)
+    return out
+
+
+def check_sequence(rule, ws, fn, names, label, on_all_ok_paths=True, skip_exit_check=()):
+    """Every Ok exit of fn passes through a call of each name, and each name
+    dominates the next one (entry-reachability with the earlier calls cut)."""
+    body = cfg.code_body(ws, fn)
+    live = cfg.live_blocks(body)
+    found = calls_named(body, set(names), live)
+    oks = [e.block for e in cfg.exits(body) if e.kind in ("ok", "value", "other", "call")]
+    errs_only = not oks
+    base = "%s|%s" % (fn.root, label)
+    missing = [n for n in names if n not in found]
+    if missing:
+        rule.violation(base + "|missing:" + ",".join(missing), cfg.loc(body),
+                       "%s no longer calls %s (expected sequence %s)" % (last_seg(fn.root), missing, " -> ".join(names)), work=len(live))
+        return False
+    ok = True
+    for a, b in zip(names, names[1:]):
+        ra = cfg.reach(body, [0], cut_blocks=found[a])
+        bad = [x for x in found[b] if x in ra]
+        k = "%s|%s-before-%s" % (base, a, b)
+        if bad:
+            ok = False
+            p = cfg.find_path(body, [0], bad, cut_blocks=found[a])
+            rule.violation(k, cfg.loc(body, bad[0]), "`%s` can run without `%s` having run first" % (b, a), work=len(live), witness=cfg.path_lines(body, p))
+        else:
+            rule.ok(k, cfg.loc(body, found[b][0]), "`%s` dominates `%s`" % (a, b), work=len(live))
+    if on_all_ok_paths and not errs_only:
+        for n in names:
+            if n in skip_exit_check:
+                continue
+            rn = cfg.reach(body, [0], cut_blocks=found[n])
+            bad = [o for o in oks if o in rn]
+            k = "%s|ok-needs-%s" % (base, n)
+            if bad:
+                ok = False
+                p = cfg.find_path(body, [0], bad, cut_blocks=found[n])
+                rule.violation(k, cfg.loc(body, bad[0]), "a successful return is reachable without `%s`" % n, work=len(live), witness=cfg.path_lines(body, p))
+            else:
+                rule.ok(k, cfg.loc(body, found[n][0]), "every successful return passes `%s`" % n, work=len(live))
+    return ok
+
+
+def fields_touched(ws, fn, adt_name):
+    """Field names of `adt_name` read and written anywhere in fn's bodies."""
+    reads, writes = set(), set()
+    adt = ws.adts.get(adt_name)
+    names = set()
+    if adt:
+        for v in adt["variants"]:
+            for f in v["fields"]:
+                names.add(f["name"])
+    short_name = adt_name.rsplit("::", 1)[-1]
+
+    def visit(body, place, is_write):
+        if place is None or "." not in place:
+            return
+        l = cfg.place_local(place)
+        ty = body.locals[l]
+        proj = cfg.place_proj(place)
+        # closure captures: 1.fK: then the captured value's own fields
+        if short_name not in ty and not (l == 1 and body.kind == "Closure"):
+            return
+        for e in proj:
+            if e.startswith("f") and ":" in e:
+                n = e.split(":", 1)[1]
+                if n in names:
+                    (writes if is_write else reads).add(n)
+                    return
+    for b in fn.bodies:
+        for blk in b.blocks:
+            if blk.get("cleanup"):
+                continue
+            for s in blk["s"]:
+                if s.get("k") == "dead":
+                    continue
+                if s.get("d"):
+                    visit(b, s["d"], True)
+                if s.get("p"):
+                    visit(b, s["p"], s.get("k") == "refmut" and False)
+                for o in s.get("ops", []):
+                    visit(b, cfg.op_place(o), False)
+            t = blk.get("term")
+            if t and t["k"] in ("call", "tailcall"):
+                for o in t["args"]:
+                    visit(b, cfg.op_place(o), False)
+            if t and t["k"] == "switch":
+                visit(b, cfg.op_place(t["d"]), False)
+    return reads, writes
